@@ -72,6 +72,57 @@ OPERATOR_CORE = {"+": "add", "+=": "add", "-": "sub", "-=": "sub",
 FREE_CORE = {"pow": "pow", "expand": "expand"}
 
 
+def uncalled_exit(prog, f, want):
+    """line of an exit of f reachable on a structured path that contains no
+    call of the core function `want` (must-pass-through), else None"""
+    def has_call(e):
+        return any(n.get("k") == "call" and n.get("u")
+                   and prog.header(n["u"]).get("n") == want
+                   and (prog.header(n["u"]).get("qn") or "").startswith(
+                       "SymEngine::") for n in walk(e)) if e else False
+    bad = []
+
+    def run_(s, called):
+        """called: set of booleans (states) reaching s; returns fall-through
+        states"""
+        if s is None or not called:
+            return called
+        k = s.get("k")
+        if k == "{}":
+            for x in s.get("s", ()):
+                called = run_(x, called)
+                if not called:
+                    break
+            return called
+        if k == "if":
+            c = {x or has_call(s.get("c")) for x in called}
+            a = run_(s.get("t"), set(c))
+            b = run_(s.get("e"), set(c)) if s.get("e") else set(c)
+            return a | b
+        if k == "return":
+            for x in called:
+                if not (x or has_call(s.get("e"))):
+                    bad.append(s.get("l"))
+            return set()
+        if k == "expr":
+            e = s.get("e") or {}
+            if e.get("k") == "throw":
+                return set()
+            return {x or has_call(e) for x in called}
+        if k == "decl":
+            return {x or has_call(s) for x in called}
+        if k in ("for", "while", "forr", "do"):
+            inner = run_(s.get("b"), set(called))
+            return called | inner
+        if k == "try":
+            return run_(s.get("b"), called)
+        return {x or has_call(s) for x in called}
+    rest = run_(f["body"], {False})
+    if False in rest:
+        bad.append(f.get("line"))
+    return bad[0] if bad else None
+
+
 def run(loader, R, tier):
     prog = loader()
     V = Visitors(prog)
@@ -97,6 +148,8 @@ def run(loader, R, tier):
                     "function")
     R.rule("R42.3", "Expression operators delegate to the matching core "
                     "function")
+    R.rule("R42.4", "a handle whose type is validated at run time is cast "
+                    "only under a dominating test for the target type")
     R.trusted += ["standard-library calls do not throw except at/sto*/"
                   "substr(pos>0)/any_cast; allocation failure is out of "
                   "scope", "named no-throw summaries (NOTHROW table, one "
@@ -185,6 +238,113 @@ def run(loader, R, tier):
                 "call-site summary %s -> %s() matches no call site any more"
                 % okey)
 
+    # ---------------------------------------------------------------- R42.4
+    # Contradiction rule: a C function that tests the dynamic type of a
+    # handle at run time (and returns an error code otherwise) promises to
+    # reject wrong kinds; then every cast of that handle must be dominated by
+    # a test that establishes the cast's target type.
+    cpred = {}                      # usr of C predicate -> class it tests
+    for f in ec:
+        if f["n"].startswith("is_a_") and len(f.get("params", ())) == 1:
+            for n in walk(f["body"]):
+                if n.get("k") == "call" and n.get("n") == "is_a" \
+                        and n.get("ta"):
+                    cpred[f["u"]] = strip_type(n["ta"][0])
+                elif n.get("k") == "call" and (n.get("n") or "").startswith(
+                        "is_a_") and n.get("u") != f["u"]:
+                    fam = {"is_a_Number": "SymEngine::Number",
+                           "is_a_Set": "SymEngine::Set",
+                           "is_a_Boolean": "SymEngine::Boolean"}.get(n["n"])
+                    if fam:
+                        cpred.setdefault(f["u"], fam)
+    R.info["c_type_predicates"] = {short(prog.name_of(u)): short(c)
+                                   for u, c in cpred.items()}
+
+    def handle_of(e, handles):
+        """name of the handle parameter inside basic_rcp(p) / *basic_rcp(p)"""
+        for x in walk(e):
+            if x.get("k") == "call" and x.get("n") == "basic_rcp" \
+                    and x.get("a"):
+                a = x["a"][0]
+                while a.get("k") == "cast":
+                    a = a["a"][0]
+                if a.get("k") == "ref" and a.get("d") == "param" \
+                        and a["n"] in handles:
+                    return a["n"]
+        return None
+
+    nval = 0
+    for f in ec:
+        handles = {p["n"] for p in f.get("params", ())
+                   if "basic_struct" in p["t"] or "CRCPBasic_C" in p["t"]}
+        if not handles:
+            continue
+        tested = {}                 # handle -> set of classes tested anywhere
+
+        def test_of(c):
+            """(handle, class) for a type-test atom"""
+            if c.get("k") != "call":
+                return None
+            if c.get("u") in cpred and c.get("a"):
+                a = c["a"][0]
+                while a.get("k") == "cast":
+                    a = a["a"][0]
+                if a.get("k") == "ref" and a.get("n") in handles:
+                    return a["n"], cpred[c["u"]]
+            if c.get("n") == "is_a" and c.get("ta") and c.get("a"):
+                h = handle_of(c["a"][0], handles)
+                if h:
+                    return h, strip_type(c["ta"][0])
+            return None
+        in_assert = set()
+        for n in walk(f["body"]):
+            t = test_of(n)
+            if t:
+                tested.setdefault(t[0], set()).add(t[1])
+        if not tested:
+            continue
+
+        def cb4(n, guards, line, f=f, tested=tested, handles=handles):
+            nonlocal nval
+            T = src = None
+            if n.get("k") == "call" and n.get("n") in (
+                    "rcp_static_cast", "down_cast", "rcp_dynamic_cast") \
+                    and n.get("ta") and n.get("a"):
+                T = strip_type(n["ta"][0])
+                src = n["a"][0]
+            if T is None:
+                return
+            h = handle_of(src, handles)
+            if h is None or h not in tested:
+                return
+            nval += 1
+            key = "%s:%s@%s" % (f["n"], h, n.get("l"))
+            ok = False
+            seen = []
+            for g in sym.flatten_guards(guards):
+                if g[0] == "case":
+                    continue
+                c, pol = g
+                t = test_of(c)
+                if t and t[0] == h and pol:
+                    seen.append(short(t[1]))
+                    if t[1] == T or prog.derives(t[1], T):
+                        ok = True
+            R.instance("R42.4", key, sample={"function": f["n"],
+                                             "handle": h, "cast_to": short(T),
+                                             "dominating_tests": seen})
+            if not ok:
+                R.violation(
+                    "R42.4", "%s:%s" % (f["n"], h), prog.loc(f, n.get("l")),
+                    "%s tests the type of handle `%s` at run time but casts "
+                    "it to %s at line %s without a dominating test that it "
+                    "is one (tests holding there: %s): a handle of another "
+                    "kind is reinterpreted instead of being rejected with "
+                    "an error code" % (f["n"], h, short(T), n.get("l"),
+                                       seen or "none"))
+        sym.visit_guarded(f["body"], cb4)
+    R.floor("casts of run-time validated handles", nval, 3)
+
     # ---------------------------------------------------------------- R42.3
     nops = 0
     for u, f in prog.functions.items():
@@ -216,6 +376,14 @@ def run(loader, R, tier):
                        "SymEngine::")]
         R.instance("R42.3", key, sample={"operator": key,
                                          "core_calls": callees})
+        elif_missing = uncalled_exit(prog, f, want)
+        if want in callees and elif_missing is not None:
+            R.violation(
+                "R42.3", key, prog.loc(f, elif_missing),
+                "Expression %s can finish (exit at line %s) without calling "
+                "the core function %s(): on that path the operator's result "
+                "is not the core function's result" % (key, elif_missing,
+                                                        want))
         if want not in callees:
             R.violation(
                 "R42.3", key, prog.loc(f),
